@@ -44,6 +44,22 @@ func (s *State) Inc(f string) {
 	s.F[f] = Cnt{cap2(c.Min + 1), cap2(c.Max + 1)}
 }
 
+// Dec undoes one occurrence of f (not below zero).
+func (s *State) Dec(f string) {
+	c := s.F[f]
+	if c.Min > 0 {
+		c.Min--
+	}
+	if c.Max > 0 {
+		c.Max--
+	}
+	if c == (Cnt{}) {
+		delete(s.F, f)
+	} else {
+		s.F[f] = c
+	}
+}
+
 // Set makes f hold (exactly once) on this path.
 func (s *State) Set(f string) { s.F[f] = Cnt{1, 1} }
 
